@@ -853,7 +853,7 @@ def replay(payload):
 # ------------------------------------------------------------------ batch / evidence
 TIERS = {
     "quick": {"runs": 8000, "chunk": 50, "wall_cap": 900},
-    "thorough": {"runs": 80000, "chunk": 200, "wall_cap": 3400},
+    "thorough": {"runs": 200000, "chunk": 200, "wall_cap": 5400},
 }
 
 
@@ -867,7 +867,8 @@ def batch(task):
             agg["harness"].append({"run": run, "why": repr(e)[:200]})
             continue
         fold(agg, res, prog)
-        if len(agg["violations"]) >= 40:
+        runner.note_violations(len(res["violations"]))
+        if len(agg["violations"]) >= 40 or runner.stop_requested():
             break
     return agg
 
